@@ -38,6 +38,29 @@ class _Continue(Exception):
     pass
 
 
+def _real_operands(a, b):
+    """Sample values of the CPython types two interpreter values stand for (None if unknown): used to ask CPython itself
+    whether an operator is defined for that pair of types."""
+    def sample(x):
+        if x is None:
+            return (None,)
+        if isinstance(x, bool):
+            return (True,)
+        if isinstance(x, int):
+            return (1,)
+        if isinstance(x, float):
+            return (1.0,)
+        if isinstance(x, str):
+            return ("a",)
+        if isinstance(x, (list, tuple, dict)):
+            return (type(x)(),)
+        return None
+    sa, sb = sample(a), sample(b)
+    if sa is None or sb is None:
+        return None
+    return sa[0], sb[0]
+
+
 class PathEnd(Exception):
     """Stop exploring this path (infeasible assumption or end of a loop-body proof)."""
 
@@ -768,6 +791,20 @@ class Interp:
             return pc(self, item)
         raise Unsupported(f"'in' on {type(container).__name__}")
 
+    def _missing_attribute(self, cls, name, what):
+        """The lookup found nothing.  That is an AttributeError only if the *real* class would lack the attribute too: a class
+        interpreted completely from the package source.  A class with members this interpreter does not see - generated by
+        dataclass / NamedTuple / Enum machinery, or inherited from a library base that is only modelled - is outside the
+        modelled subset for that attribute: undecided, never a verdict."""
+        for c in cls.mro:
+            if c.name == "object":
+                continue
+            if getattr(c, "node", None) is None or c.is_enum or c.is_dataclass or getattr(c, "is_namedtuple", False) \
+                    or getattr(c, "unmodelled_base", None):
+                raise Unsupported(f"attribute {name!r} of {what}: the class has generated or library-provided members "
+                                  f"({c.name}) that are not modelled")
+        raise self.exc("AttributeError", f"{what} has no attribute {name}")
+
     # ------------------------------------------------------------------ attribute access
     def getattr(self, obj, name):
         if isinstance(obj, EnumMember):
@@ -791,7 +828,15 @@ class Interp:
             if v is MISSING:
                 if name == "__dict__":
                     return dict(obj.attrs)
-                raise self.exc("AttributeError", f"{obj.cls.name} has no attribute {name}")
+                if getattr(obj.cls, "is_namedtuple", False) and name in ("_replace", "_asdict", "_fields"):
+                    fields = [n for n, _, _ in all_dc_fields(obj.cls)]
+                    if name == "_fields":
+                        return tuple(fields)
+                    if name == "_asdict":
+                        return Builtin("namedtuple._asdict", lambda: {f: obj.attrs[f] for f in fields})
+                    return Builtin("namedtuple._replace",
+                                   lambda **kw: self.instantiate(obj.cls, [], {f: kw.get(f, obj.attrs[f]) for f in fields}))
+                self._missing_attribute(obj.cls, name, obj.cls.name)
             return self._bind(v, obj, obj.cls)
         if isinstance(obj, Class):
             if name == "__name__":
@@ -804,7 +849,11 @@ class Interp:
             if v is MISSING:
                 if name == "__match_args__" and obj.is_dataclass:
                     return tuple(n for n, _, _ in all_dc_fields(obj))
-                raise self.exc("AttributeError", f"type {obj.name} has no attribute {name}")
+                if getattr(obj, "is_namedtuple", False) and name in ("_make", "_fields"):
+                    if name == "_fields":
+                        return tuple(n for n, _, _ in all_dc_fields(obj))
+                    return Builtin("namedtuple._make", lambda items: self.instantiate(obj, list(self.iterate(items)), {}))
+                self._missing_attribute(obj, name, "type " + obj.name)
             if isinstance(v, ClassMethod):
                 return BoundMethod(v.f, obj)
             if isinstance(v, StaticMethod):
@@ -816,6 +865,9 @@ class Interp:
             sub = self.loader.submodule(obj, name)
             if sub is not None:
                 return sub
+            if obj.path is None:
+                # a library module that is only modelled: the real one may well have the attribute
+                raise Unsupported(f"{obj.name}.{name} is not modelled by the interpreter")
             raise self.exc("AttributeError", f"module {obj.name} has no attribute {name}")
         ga = getattr(obj, "py_getattr", None)
         if ga is not None:
@@ -1530,6 +1582,10 @@ class Interp:
             else:
                 sub = self.loader.submodule(mod, a.name, self)
                 if sub is None:
+                    if mod.path is None:
+                        from .values import UnmodelledName
+                        env.vars[a.asname or a.name] = UnmodelledName(f"{modname}.{a.name}")
+                        continue
                     raise self.exc("ImportError", f"cannot import {a.name} from {modname}")
                 v = sub
             env.vars[a.asname or a.name] = v
@@ -1622,6 +1678,9 @@ class Interp:
         if v is MISSING:
             v = self.builtins.get(node.id, MISSING)
             if v is MISSING:
+                import builtins as _bi
+                if hasattr(_bi, node.id):
+                    raise Unsupported(f"builtin {node.id} is not modelled by the interpreter")
                 raise self.exc("NameError", node.id)
         return v
 
@@ -1766,8 +1825,31 @@ class Interp:
                 return pybuiltins.str_concat(a, b)
             r = _num(a) + _num(b)
             return r
+        pb = getattr(a, "py_binop", None)
+        if pb is not None:
+            return pb(self, op, b)
+        if isinstance(op, ast.BitOr) and isinstance(a, dict) and isinstance(b, dict):
+            return {**a, **b}           # PEP 584: right operand wins, insertion order of the left one first
+        if isinstance(op, (ast.BitOr, ast.BitAnd, ast.Sub, ast.BitXor)) and isinstance(a, SetVal) and isinstance(b, SetVal):
+            raise Unsupported(f"set operator {type(op).__name__} is not modelled")
         # operators that bytes / str / list / None / instances do not have: the interpreted TypeError, not a checker error
+        # (only where CPython itself refuses this pair of operand types; anything else is outside the modelled subset)
         if not isinstance(op, (ast.Add, ast.Mult, ast.Mod)):
+            real = _real_operands(a, b)
+            if real is not None:
+                import operator as _op
+                fn = {ast.Sub: _op.sub, ast.BitOr: _op.or_, ast.BitAnd: _op.and_, ast.BitXor: _op.xor, ast.LShift: _op.lshift, ast.RShift: _op.rshift,
+                      ast.Div: _op.truediv, ast.FloorDiv: _op.floordiv, ast.Pow: _op.pow, ast.MatMult: _op.matmul}.get(type(op))
+                if fn is not None:
+                    try:
+                        fn(*real)
+                        supported = True
+                    except TypeError:
+                        supported = False
+                    except Exception:  # noqa: BLE001  (ZeroDivisionError etc.: the types do support it)
+                        supported = True
+                    if supported and any(isinstance(x, (list, tuple, dict, str)) or x is None for x in (a, b)):
+                        raise Unsupported(f"operator {type(op).__name__} on {type(real[0]).__name__} and {type(real[1]).__name__} is not modelled")
             for x in (a, b):
                 if x is None or isinstance(x, (BytesVal, ABytes, SStr, str, list, tuple, dict, Instance)) and not isinstance(x, EnumMember) \
                         and getattr(x, "py_sub", None) is None and not hasattr(x, "py_binop"):
